@@ -158,6 +158,7 @@ type FuncVC struct {
 	frameAll bool
 	allocBoundTerm string
 	cardDone map[string]bool
+	lockIDs  []string
 }
 
 type mapIter struct {
